@@ -210,7 +210,9 @@ def compare_decomposition(S, ctx, segs, ref, m, what, monitor, feature, bound_ex
             ecc = max(nu, nv) / max(min(nu, nv), 1e-300)
             size = max(size, nu, nv)
         # the parameter of a point on a very flat ellipse is ill-conditioned (atan2 of a ratio of the radii)
-        bound = 4 * b_affine(S_, cond) + (4e-9 * size * max(1.0, cond / 10) * max(1.0, ecc / 100.0) if k == "A" else 0.0) + bound_extra
+        # an Arc stores its centre and axis tips as absolute points: the direction of a tiny minor axis carries ulp(S) / r_minor of noise,
+        # which the parameter angle magnifies by the radii ratio once more: displacement ~ eps * S * ecc^2 (measured: 1.3e-3 at S = 4e3, ecc = 1e5)
+        bound = 4 * b_affine(S_, cond) + ((4e-9 * size * max(1.0, cond / 10) * max(1.0, ecc / 100.0) + 8 * 2.3e-16 * S_ * ecc * ecc) if k == "A" else 0.0) + bound_extra
         dev = max(math.hypot(a[0] - b[0], a[1] - b[1]) for a, b in zip(got, exp))
         if ctx.see("%s-%s" % (monitor, k), dev / bound) > 1:
             # direction only? the same points in reverse order
